@@ -11,9 +11,9 @@ from vlib import renv, ref_response
 PROPERTY = "C04"
 RULE = ("finite matrix worker class {sync,gthread,gevent,eventlet} x phase of a client connection at signal time {accepted-idle, head "
         "partly sent, application running (gate file), response partly written, keep-alive idle} x application {finishes 0.3 s after the "
-        "signal, overruns graceful_timeout, never finishes} x signal {TERM, INT, QUIT} x bind {tcp, unix}, each with a real master + "
+        "signal, overruns graceful_timeout, never finishes} x signal {TERM, INT, QUIT} x bind {tcp, unix} (plus the history 'one HUP before the signal' for every class x signal x bind), each with a real master + "
         "worker started from the working tree, graceful_timeout=4, plus a seeded sub-second jitter before the signal (thorough: the "
-        "whole matrix; quick: a seeded slice of 48 cells). Oracle: TERM and a request a worker had started reading and an application "
+        "whole matrix; quick: a seeded slice of 56 cells). Oracle: TERM and a request a worker had started reading and an application "
         "finishing in time => complete response (independent response reader); master exit status 0 within graceful_timeout+4 s (INT/"
         "QUIT: within 4 s); afterwards no process of the master's session alive, listener not connectable, pid file and unix socket file "
         "gone. non-trivial = a request was in flight at the signal; distinct by cell")
@@ -38,6 +38,9 @@ def matrix():
         if phase in ("idle", "keepalive-idle") and app != "finish":
             continue
         yield {"kind": kind, "phase": phase, "app": app, "sig": sig, "bind": bind}
+    # histories: one reload (HUP) before the shutdown signal - the end state must be the same
+    for kind, sig, bind in itertools.product(KINDS, SIGS, BINDS):
+        yield {"kind": kind, "phase": "idle", "app": "finish", "sig": sig, "bind": bind, "prelude": "hup"}
 
 
 def extra_cases(tier, seed, shard, nshards):
@@ -50,20 +53,20 @@ def extra_cases(tier, seed, shard, nshards):
         picked = []
         seen = set()
         for c in cells:
-            k = (c["kind"], c["phase"], "TERM" if c["sig"] == "TERM" else "quick")
+            k = (c["kind"], c["phase"], "TERM" if c["sig"] == "TERM" else "quick", c.get("prelude"))
             if k not in seen or (c["app"] == "finish" and c["sig"] == "TERM" and (c["kind"], c["phase"], "f") not in seen):
                 seen.add(k)
                 if c["app"] == "finish" and c["sig"] == "TERM":
                     seen.add((c["kind"], c["phase"], "f"))
                 picked.append(c)
-        cells = picked[:48]
+        cells = picked[:56]
     for i, c in enumerate(cells):
         if i % nshards == shard:
             j = int(hashlib.sha1(("%d-%d" % (seed, i)).encode()).hexdigest()[:4], 16) / 65535.0
             yield dict(c, jitter=round(0.05 + 0.4 * j, 3))
 
 
-EXHAUSTIVE_NOTE = "thorough tier enumerates all %d cells of the matrix; quick a seeded slice of 48" % len(list(matrix()))
+EXHAUSTIVE_NOTE = "thorough tier enumerates all %d cells of the matrix; quick a seeded slice of 56" % len(list(matrix()))
 
 
 def run_case(case):
@@ -81,7 +84,18 @@ def run_case(case):
     try:
         if not srv.wait_ready():
             return Outcome([], False, classes + ["inconclusive:not-ready"], sample={"case": case, "log": srv.logtext()[-400:]})
-        path = {"finish": None, "overrun": None, "never": None}
+        if case.get("prelude") == "hup":
+            before = srv.workers()
+            srv.signal(signal.SIGHUP)
+            t0 = time.time()
+            while time.time() - t0 < 10:
+                now = srv.workers()
+                if now and not (set(now) & set(before)):
+                    break
+                time.sleep(0.1)
+            if not srv.wait_ready(10):
+                return Outcome([], False, classes + ["inconclusive:not-ready-after-hup"], sample={"case": case})
+            classes.append("prelude:hup")
         in_flight = phase in ("head-partial", "app-running", "response-partial")
         c = None
         got_first = b""
@@ -212,7 +226,7 @@ def run_case(case):
             if bind == "unix" and os.path.exists(srv.sockpath):
                 V("socket-file-removed", "unix-socket-file-left-behind", None, "removed")
         return Outcome(vio, in_flight, classes + ["exit:%s" % status, "elapsed:%d" % int(elapsed)],
-                       key="|".join("%s" % case[k] for k in ("kind", "phase", "app", "sig", "bind")),
+                       key="|".join("%s" % case.get(k) for k in ("kind", "phase", "app", "sig", "bind", "prelude")),
                        sample={"case": case, "elapsed": round(elapsed, 2), "status": status, "response_head": data[:80]})
     finally:
         srv.cleanup()
